@@ -2,8 +2,9 @@ import TR.Model.Coalesce
 /-!
 # Coalesce (C11): what an `arrive` line says about the request (`arriveOp`)
 
-Only the words `key=`, `inner=` and `callpanic=` reach the model; any other word of the line — in particular
-`via=…`, the way the caller obtained the handle it calls — can be inserted or removed without changing the operation.
+Only the words `key=`, `svc=`, `inner=` and `callpanic=` reach the model; any other word of the line — in particular
+`via=…`, the way the caller obtained the handle it calls, and `unwind=…`, `eclone=…`, `keep=…`, what the caller does with
+the future and with what it returns — can be inserted or removed without changing the operation.
 -/
 namespace TR.Coalesce
 
@@ -16,13 +17,24 @@ theorem kv_get_skip (pre post : Kv) (a v k : String) (h : a ≠ k) :
       simp only [List.cons_append, Kv.get]
       rw [ih]
 
-/-- a word whose name is none of `key`, `inner`, `callpanic` does not change the request -/
+/-- a word whose name is none of `key`, `svc`, `inner`, `callpanic` does not change the request -/
 theorem arriveOp_skip (c : Nat) (pre post : Kv) (a v : String)
-    (h1 : a ≠ "key") (h2 : a ≠ "inner") (h3 : a ≠ "callpanic") :
+    (h1 : a ≠ "key") (h2 : a ≠ "inner") (h3 : a ≠ "callpanic") (h4 : a ≠ "svc") :
     arriveOp c (pre ++ (a, v) :: post) = arriveOp c (pre ++ post) := by
   have e1 := kv_get_skip pre post a v "key" h1
   have e2 := kv_get_skip pre post a v "inner" h2
   have e3 := kv_get_skip pre post a v "callpanic" h3
-  simp only [arriveOp, planOf, Kv.nat, Kv.str, e1, e2, e3]
+  have e4 := kv_get_skip pre post a v "svc" h4
+  simp only [arriveOp, planOf, Kv.nat, Kv.str, e1, e2, e3, e4]
+
+/-- … nor the operations the whole line stands for, if it is not `clonepanic` either -/
+theorem arriveOps_skip (c : Nat) (pre post : Kv) (a v : String)
+    (h1 : a ≠ "key") (h2 : a ≠ "inner") (h3 : a ≠ "callpanic") (h4 : a ≠ "svc") (h5 : a ≠ "clonepanic") :
+    arriveOps c (pre ++ (a, v) :: post) = arriveOps c (pre ++ post) := by
+  have e5 := kv_get_skip pre post a v "clonepanic" h5
+  have e : Kv.nat (pre ++ (a, v) :: post) "clonepanic" 0 = Kv.nat (pre ++ post) "clonepanic" 0 := by
+    simp only [Kv.nat, e5]
+  unfold arriveOps
+  rw [arriveOp_skip c pre post a v h1 h2 h3 h4, e]
 
 end TR.Coalesce
